@@ -302,6 +302,9 @@ _N13_MAP = re.compile(r"(?<![\w.])(\w+\s*\.iter\(\))(\s*\.map\()(?=\|)")
 _N13_POSITION = re.compile(r"(?<![\w.])(\w+(?:\[[^\]\n]*\])?)(\s*\.iter\(\)\s*\.position\()(?=\|)")
 _N13_SET_COLLECT = re.compile(r"(?<![\w.])(\w+)(\s*\.into_iter\(\)\s*\.collect\(\))")
 _N13_CLONED_COLLECT = re.compile(r"(?<![\w.])(\w+)(\s*\.iter\(\)\s*\.cloned\(\)\s*\.collect\(\))")
+_N13_FILTER_COUNT = re.compile(r"(?<![\w.])(\w+(?:\.\w+)*(?:\[[^\]\n]*\])?)(\s*\.iter\(\)\s*\.filter\()(?=\|)")
+_N13_TAIL_COUNT = re.compile(r"\)\s*\.count\(\)")
+_N13_FILTER_MAP = re.compile(r"(?<![\w.])(\w+(?:\.\w+)*)(\s*\.iter\(\)\s*\.filter_map\()(?=\|)")
 _N13_FOLD = re.compile(r"(?<![\w.])(\w+\s*\.iter\(\))(\s*\.fold\()")
 _N13_TAIL_COLLECT = re.compile(r"\)\s*\.collect\(\)")
 _N13_TAIL_SUM = re.compile(r"\)\s*\.sum\(\)")
@@ -324,6 +327,8 @@ def norm_iter_chains(text, m, body_open, body_close):
         A.iter().position(C)                     ->  verif_position(&A, C)         (A may be `name[range]`)
         let x: Vec<usize> = S.into_iter().collect()  ->  ... = verif_set_into_vec(S)   (S a HashSet<usize>)
         A.iter().cloned().collect()              ->  verif_cloned_collect(&A)
+        A.iter().filter(C).count()               ->  verif_filter_count(&A, C)      (A may be `place[range]`)
+        A.iter().filter_map(C).collect()         ->  verif_filter_map_collect(&A, C)
     with A, B identifiers and C a closure literal."""
     edits = []
     closures = None
@@ -390,6 +395,26 @@ def norm_iter_chains(text, m, body_open, body_close):
     for mm in _N13_CLONED_COLLECT.finditer(m, body_open, body_close):
         edits.append(Edit(mm.start(1), "", "verif_cloned_collect(&", "norm:N13"))
         edits.append(Edit(mm.start(2), text[mm.start(2) : mm.end(2)], ")", "norm:N13"))
+    for mm in _N13_FILTER_COUNT.finditer(m, body_open, body_close):
+        c = closure_at(mm.end())
+        if c is None:
+            continue
+        t = _N13_TAIL_COUNT.match(m, c[3])
+        if not t:
+            continue
+        edits.append(Edit(mm.start(1), "", "verif_filter_count(&", "norm:N13"))
+        edits.append(Edit(mm.start(2), text[mm.start(2) : mm.end(2)], ", ", "norm:N13"))
+        edits.append(Edit(t.start(), text[t.start() : t.end()], ")", "norm:N13"))
+    for mm in _N13_FILTER_MAP.finditer(m, body_open, body_close):
+        c = closure_at(mm.end())
+        if c is None:
+            continue
+        t = _N13_TAIL_COLLECT.match(m, c[3])
+        if not t:
+            continue
+        edits.append(Edit(mm.start(1), "", "verif_filter_map_collect(&", "norm:N13"))
+        edits.append(Edit(mm.start(2), text[mm.start(2) : mm.end(2)], ", ", "norm:N13"))
+        edits.append(Edit(t.start(), text[t.start() : t.end()], ")", "norm:N13"))
     for mm in _N13_FOLD.finditer(m, body_open, body_close):
         edits.append(Edit(mm.start(1), "", "verif_fold(", "norm:N13"))
         edits.append(Edit(mm.start(2), text[mm.start(2) : mm.end(2)], ", ", "norm:N13"))
@@ -682,6 +707,8 @@ def gen_fn(d, strip_paths, mode="verify", contract_text=None, vacuity=False):
             n = int(s.args[0])
         except (ValueError, IndexError):
             raise ExtractError("%s: bad loop ordinal" % s.where)
+        if len(s.args) < 2:
+            raise ExtractError("%s: loop section needs a kind (header|pre|post|before|after)" % s.where)
         what = s.args[1]
         if n < 1 or n > len(loops):
             raise ExtractError(
